@@ -29,6 +29,7 @@ class LoopMonitor:
         self.nchords = 0
         self.P = []               # physical keys held, folded from the events read (None = unknown after tablet mode)
         self.absorbing = False
+        self.c19 = None           # first redundant event in the written stream (recorded, not raised: C19 is judged next to the others)
 
     # ---- helpers
     def isin(self, k, lst):
@@ -128,6 +129,20 @@ class LoopMonitor:
             raise Violation('C20', 'the loop wrote to the virtual keyboard after a driver call had failed', {'fault': self.fault})
         if self.done:
             raise Violation('C10', 'the loop wrote to the virtual keyboard after the device reported it is gone', None)
+        if not self.chord_slot and self.c19 is None:
+            # C19 on the stream the loop writes (timer chords excepted: C11's transience clause)
+            Vt = list(self.V)
+            for kd, k in evs:
+                if kd == 'Pressed':
+                    if self.isin(k, Vt):
+                        self.c19 = ('loop: a key was pressed while already down on the virtual keyboard', {'key': k, 'evs': list(evs)})
+                        break
+                    Vt.append(k)
+                else:
+                    if not self.isin(k, Vt):
+                        self.c19 = ('loop: a key was released while up on the virtual keyboard', {'key': k, 'evs': list(evs)})
+                        break
+                    Vt = [x for x in Vt if not self.q.keq(x, k)]
         if self.chord_slot:
             self.chord_slot = False
             if self.tablet:
